@@ -4,7 +4,10 @@ import (
 	"fmt"
 	"os"
 	"reflect"
+	"runtime"
 	"strings"
+	"sync"
+	"sync/atomic"
 	"testing"
 	"unsafe"
 
@@ -103,7 +106,45 @@ func c10Query(q string) (obs, rt string) {
 	return "bad-query", "-"
 }
 
-// TestVerifC10 runs the histories of the ops file (normally exactly one: package state is per process).
+// c10SelfAction damages the process' own executable file before the first lookup ($VERIF_C10_SELF):
+// delete | chmod000 | replace-same (new file, same bytes).  It reports whether the file can still be opened.
+func c10SelfAction() string {
+	act := os.Getenv("VERIF_C10_SELF")
+	if act == "" {
+		return ""
+	}
+	exe, err := os.Executable()
+	if err != nil {
+		return "self=" + act + " executable=err"
+	}
+	switch act {
+	case "delete":
+		err = os.Remove(exe)
+	case "chmod000":
+		err = os.Chmod(exe, 0)
+	case "replace-same":
+		var b []byte
+		if b, err = os.ReadFile(exe); err == nil {
+			if err = os.Remove(exe); err == nil {
+				err = os.WriteFile(exe, b, 0o755)
+			}
+		}
+	}
+	if err != nil {
+		return "self=" + act + " action-failed"
+	}
+	f, err := os.Open(exe)
+	if err != nil {
+		return "self=" + act + " open=fail"
+	}
+	f.Close()
+	return "self=" + act + " open=ok"
+}
+
+// TestVerifC10 runs the history of the ops file (exactly one per process: package state is per process).
+// `c10.hist`: the calls one after the other.  `c10.conc … g=<N> …`: call i is issued by goroutine i mod N; the
+// goroutines are released together from a spin barrier, so their FIRST lookups (the once-only initialisation of
+// the alignments and of the table) race.
 func TestVerifC10(t *testing.T) {
 	out := vh.OpenOut()
 	defer out.Close()
@@ -112,27 +153,52 @@ func TestVerifC10(t *testing.T) {
 		t.Fatal(err)
 	}
 	defer rtf.Close()
+	if self := c10SelfAction(); self != "" {
+		os.WriteFile(os.Getenv("VERIF_OUT")+".self", []byte(self+" argv0="+vh.SymEsc(os.Args[0])+"\n"), 0o644)
+	}
 	for _, op := range vh.ReadOps() {
-		if len(op.Toks) == 0 || op.Toks[0] != "c10.hist" {
+		if len(op.Toks) == 0 || (op.Toks[0] != "c10.hist" && op.Toks[0] != "c10.conc") {
 			continue
 		}
-		qi := -1
+		qi, g := -1, 1
 		for i, tk := range op.Toks {
+			if op.Toks[0] == "c10.conc" && strings.HasPrefix(tk, "g=") && i < 4 {
+				fmt.Sscanf(tk, "g=%d", &g)
+			}
 			if strings.HasPrefix(tk, "q=") {
 				qi = i
 				break
 			}
 		}
-		if qi < 0 {
+		if qi < 0 || g < 1 {
 			out.Put(op.Idx, "bad-op")
 			continue
 		}
-		obs := make([]string, 0, len(op.Toks)-qi)
-		rts := make([]string, 0, len(op.Toks)-qi)
-		for _, q := range op.Toks[qi+1:] {
-			o, r := c10Query(q)
-			obs = append(obs, o)
-			rts = append(rts, r)
+		qs := op.Toks[qi+1:]
+		obs := make([]string, len(qs))
+		rts := make([]string, len(qs))
+		if g == 1 {
+			for i, q := range qs {
+				obs[i], rts[i] = c10Query(q)
+			}
+		} else {
+			var ready int32
+			var wg sync.WaitGroup
+			for j := 0; j < g; j++ {
+				wg.Add(1)
+				go func(j int) {
+					defer wg.Done()
+					runtime.LockOSThread()
+					atomic.AddInt32(&ready, 1)
+					for atomic.LoadInt32(&ready) < int32(g) {
+						runtime.Gosched()
+					}
+					for i := j; i < len(qs); i += g {
+						obs[i], rts[i] = c10Query(qs[i])
+					}
+				}(j)
+			}
+			wg.Wait()
 		}
 		if len(obs) == 0 {
 			obs, rts = []string{"-"}, []string{"-"}
